@@ -14,7 +14,7 @@
 (***************************************************************************)
 EXTENDS Integers, Sequences, FiniteSets, TLC, Json
 
-CONSTANTS Kinds, Addrs, Lens, MaxSecs, Vcpus, Roms, Bases
+CONSTANTS Kinds, Addrs, Lens, MaxSecs, Vcpus, Roms, Bases, Metas
 
 VARIABLES fw
 vars == <<fw>>
@@ -26,7 +26,10 @@ SecLists == UNION {[1 .. n -> Sec] : n \in 0 .. MaxSecs}
 \* rom: ROM size in pages; base: where page unit 0 of the section addresses lies ("high": just below
 \* the ROM's own range, as in the repository's fixtures; "zero": guest-physical address 0, so that a
 \* section at address unit 0 sits at GPA 0 -- a legal address like any other)
-Fws == [rom : Roms, secs : SecLists, vcpus : Vcpus, product : {"Milan", "Genoa"}, base : Bases]
+\* meta: where in the image the metadata header and its section descriptors lie (the GUID table names
+\* the place by its distance from the end of the image): 0 = at byte 0, 1 = inside the first page, 2 = in
+\* the last page; the measurement does not depend on it
+Fws == [rom : Roms, secs : SecLists, vcpus : Vcpus, product : {"Milan", "Genoa"}, base : Bases, meta : Metas]
 
 PageTypeOf(k) == CASE k = 1 -> "UNMEASURED" [] k = 2 -> "SECRETS" [] k = 3 -> "CPUID" [] k = 4 -> "ZERO" [] OTHER -> "?"
 
